@@ -1,0 +1,21 @@
+// Copyright 2026 The Mellium Contributors.
+// Use of this source code is governed by the BSD 2-clause
+// license that can be found in the LICENSE file.
+
+//go:build verif
+
+package xmpp
+
+import (
+	"context"
+
+	"mellium.im/xmpp/internal/wskey"
+)
+
+// VerifWebSocketContext returns a context that carries the internal marker the
+// websocket package's negotiator adds: a session negotiated with it uses the
+// WebSocket subprotocol (RFC 7395). It only exists in builds with the "verif"
+// tag.
+func VerifWebSocketContext(ctx context.Context) context.Context {
+	return context.WithValue(ctx, wskey.Key{}, struct{}{})
+}
